@@ -1,9 +1,8 @@
 //@ unit u_comp
 //@ depends u_graph u_bfs u_wbfs
-// C10 (outer loops only): connected_components / weakly_connected_components / number_of_connected_components /
-// node_connected_component: the WrongMethod guards, and that every node ends up in some returned set. The reachability
-// content lives in breadth_first_search / plain_bfs (hash-set union pipelines), which are ASSUMED here (A5) to return a list
-// that contains the start node; disjointness and "same set iff connected" are therefore not decided.
+// C10: connected_components / weakly_connected_components / number_of_connected_components / node_connected_component over the
+// verified searches: WrongMethod guards, coverage, every set the (weakly) reachable set of a node, sets pairwise disjoint.
+// breadth_first_search / plain_bfs are verified in u_bfs / u_wbfs and enter here with those contracts (include-assumed).
 #![allow(unused_imports)]
 use vstd::prelude::*;
 use vstd::std_specs::cmp::*;
